@@ -136,7 +136,7 @@ static ares_status_t ares_dns_write_header(const ares_dns_record_t *dnsrec,
 }
 
 static ares_status_t ares_dns_write_questions(const ares_dns_record_t *dnsrec,
-                                              ares_llist_t           **namelist,
+                                              ares_dns_namelist_t     *namelist,
                                               ares_buf_t              *buf)
 {
   size_t i;
@@ -176,7 +176,7 @@ static ares_status_t ares_dns_write_questions(const ares_dns_record_t *dnsrec,
 
 static ares_status_t ares_dns_write_rr_name(ares_buf_t          *buf,
                                             const ares_dns_rr_t *rr,
-                                            ares_llist_t       **namelist,
+                                            ares_dns_namelist_t *namelist,
                                             ares_bool_t       validate_hostname,
                                             ares_dns_rr_key_t key)
 {
@@ -319,7 +319,7 @@ static ares_status_t ares_dns_write_rr_u8(ares_buf_t          *buf,
 
 static ares_status_t ares_dns_write_rr_a(ares_buf_t          *buf,
                                          const ares_dns_rr_t *rr,
-                                         ares_llist_t       **namelist)
+                                         ares_dns_namelist_t *namelist)
 {
   const struct in_addr *addr;
   (void)namelist;
@@ -334,7 +334,7 @@ static ares_status_t ares_dns_write_rr_a(ares_buf_t          *buf,
 
 static ares_status_t ares_dns_write_rr_ns(ares_buf_t          *buf,
                                           const ares_dns_rr_t *rr,
-                                          ares_llist_t       **namelist)
+                                          ares_dns_namelist_t *namelist)
 {
   return ares_dns_write_rr_name(buf, rr, namelist, ARES_FALSE,
                                 ARES_RR_NS_NSDNAME);
@@ -342,7 +342,7 @@ static ares_status_t ares_dns_write_rr_ns(ares_buf_t          *buf,
 
 static ares_status_t ares_dns_write_rr_cname(ares_buf_t          *buf,
                                              const ares_dns_rr_t *rr,
-                                             ares_llist_t       **namelist)
+                                             ares_dns_namelist_t *namelist)
 {
   return ares_dns_write_rr_name(buf, rr, namelist, ARES_FALSE,
                                 ARES_RR_CNAME_CNAME);
@@ -350,7 +350,7 @@ static ares_status_t ares_dns_write_rr_cname(ares_buf_t          *buf,
 
 static ares_status_t ares_dns_write_rr_soa(ares_buf_t          *buf,
                                            const ares_dns_rr_t *rr,
-                                           ares_llist_t       **namelist)
+                                           ares_dns_namelist_t *namelist)
 {
   ares_status_t status;
 
@@ -398,7 +398,7 @@ static ares_status_t ares_dns_write_rr_soa(ares_buf_t          *buf,
 
 static ares_status_t ares_dns_write_rr_ptr(ares_buf_t          *buf,
                                            const ares_dns_rr_t *rr,
-                                           ares_llist_t       **namelist)
+                                           ares_dns_namelist_t *namelist)
 {
   return ares_dns_write_rr_name(buf, rr, namelist, ARES_FALSE,
                                 ARES_RR_PTR_DNAME);
@@ -406,7 +406,7 @@ static ares_status_t ares_dns_write_rr_ptr(ares_buf_t          *buf,
 
 static ares_status_t ares_dns_write_rr_hinfo(ares_buf_t          *buf,
                                              const ares_dns_rr_t *rr,
-                                             ares_llist_t       **namelist)
+                                             ares_dns_namelist_t *namelist)
 {
   ares_status_t status;
 
@@ -424,7 +424,7 @@ static ares_status_t ares_dns_write_rr_hinfo(ares_buf_t          *buf,
 
 static ares_status_t ares_dns_write_rr_mx(ares_buf_t          *buf,
                                           const ares_dns_rr_t *rr,
-                                          ares_llist_t       **namelist)
+                                          ares_dns_namelist_t *namelist)
 {
   ares_status_t status;
 
@@ -441,7 +441,7 @@ static ares_status_t ares_dns_write_rr_mx(ares_buf_t          *buf,
 
 static ares_status_t ares_dns_write_rr_txt(ares_buf_t          *buf,
                                            const ares_dns_rr_t *rr,
-                                           ares_llist_t       **namelist)
+                                           ares_dns_namelist_t *namelist)
 {
   (void)namelist;
   return ares_dns_write_rr_abin(buf, rr, ARES_RR_TXT_DATA);
@@ -449,7 +449,7 @@ static ares_status_t ares_dns_write_rr_txt(ares_buf_t          *buf,
 
 static ares_status_t ares_dns_write_rr_sig(ares_buf_t          *buf,
                                            const ares_dns_rr_t *rr,
-                                           ares_llist_t       **namelist)
+                                           ares_dns_namelist_t *namelist)
 {
   ares_status_t        status;
   const unsigned char *data;
@@ -517,7 +517,7 @@ static ares_status_t ares_dns_write_rr_sig(ares_buf_t          *buf,
 
 static ares_status_t ares_dns_write_rr_aaaa(ares_buf_t          *buf,
                                             const ares_dns_rr_t *rr,
-                                            ares_llist_t       **namelist)
+                                            ares_dns_namelist_t *namelist)
 {
   const struct ares_in6_addr *addr;
   (void)namelist;
@@ -532,7 +532,7 @@ static ares_status_t ares_dns_write_rr_aaaa(ares_buf_t          *buf,
 
 static ares_status_t ares_dns_write_rr_srv(ares_buf_t          *buf,
                                            const ares_dns_rr_t *rr,
-                                           ares_llist_t       **namelist)
+                                           ares_dns_namelist_t *namelist)
 {
   ares_status_t status;
 
@@ -561,7 +561,7 @@ static ares_status_t ares_dns_write_rr_srv(ares_buf_t          *buf,
 
 static ares_status_t ares_dns_write_rr_naptr(ares_buf_t          *buf,
                                              const ares_dns_rr_t *rr,
-                                             ares_llist_t       **namelist)
+                                             ares_dns_namelist_t *namelist)
 {
   ares_status_t status;
 
@@ -602,7 +602,7 @@ static ares_status_t ares_dns_write_rr_naptr(ares_buf_t          *buf,
 
 static ares_status_t ares_dns_write_rr_opt(ares_buf_t          *buf,
                                            const ares_dns_rr_t *rr,
-                                           ares_llist_t       **namelist)
+                                           ares_dns_namelist_t *namelist)
 {
   size_t         len = ares_buf_len(buf);
   ares_status_t  status;
@@ -683,7 +683,7 @@ static ares_status_t ares_dns_write_rr_opt(ares_buf_t          *buf,
 
 static ares_status_t ares_dns_write_rr_tlsa(ares_buf_t          *buf,
                                             const ares_dns_rr_t *rr,
-                                            ares_llist_t       **namelist)
+                                            ares_dns_namelist_t *namelist)
 {
   ares_status_t        status;
   const unsigned char *data;
@@ -720,7 +720,7 @@ static ares_status_t ares_dns_write_rr_tlsa(ares_buf_t          *buf,
 
 static ares_status_t ares_dns_write_rr_svcb(ares_buf_t          *buf,
                                             const ares_dns_rr_t *rr,
-                                            ares_llist_t       **namelist)
+                                            ares_dns_namelist_t *namelist)
 {
   ares_status_t status;
   size_t        i;
@@ -771,7 +771,7 @@ static ares_status_t ares_dns_write_rr_svcb(ares_buf_t          *buf,
 
 static ares_status_t ares_dns_write_rr_https(ares_buf_t          *buf,
                                              const ares_dns_rr_t *rr,
-                                             ares_llist_t       **namelist)
+                                             ares_dns_namelist_t *namelist)
 {
   ares_status_t status;
   size_t        i;
@@ -822,7 +822,7 @@ static ares_status_t ares_dns_write_rr_https(ares_buf_t          *buf,
 
 static ares_status_t ares_dns_write_rr_uri(ares_buf_t          *buf,
                                            const ares_dns_rr_t *rr,
-                                           ares_llist_t       **namelist)
+                                           ares_dns_namelist_t *namelist)
 {
   ares_status_t status;
   const char   *target;
@@ -854,7 +854,7 @@ static ares_status_t ares_dns_write_rr_uri(ares_buf_t          *buf,
 
 static ares_status_t ares_dns_write_rr_caa(ares_buf_t          *buf,
                                            const ares_dns_rr_t *rr,
-                                           ares_llist_t       **namelist)
+                                           ares_dns_namelist_t *namelist)
 {
   const unsigned char *data     = NULL;
   size_t               data_len = 0;
@@ -885,7 +885,7 @@ static ares_status_t ares_dns_write_rr_caa(ares_buf_t          *buf,
 
 static ares_status_t ares_dns_write_rr_raw_rr(ares_buf_t          *buf,
                                               const ares_dns_rr_t *rr,
-                                              ares_llist_t       **namelist)
+                                              ares_dns_namelist_t *namelist)
 {
   size_t               len = ares_buf_len(buf);
   ares_status_t        status;
@@ -935,7 +935,7 @@ static ares_status_t ares_dns_write_rr_raw_rr(ares_buf_t          *buf,
 }
 
 static ares_status_t ares_dns_write_rr(const ares_dns_record_t *dnsrec,
-                                       ares_llist_t           **namelist,
+                                       ares_dns_namelist_t     *namelist,
                                        ares_dns_section_t       section,
                                        ares_buf_t              *buf)
 {
@@ -945,7 +945,7 @@ static ares_status_t ares_dns_write_rr(const ares_dns_record_t *dnsrec,
     const ares_dns_rr_t *rr;
     ares_dns_rec_type_t  type;
     ares_bool_t          allow_compress;
-    ares_llist_t       **namelistptr = NULL;
+    ares_dns_namelist_t *namelistptr = NULL;
     size_t               pos_len;
     ares_status_t        status;
     size_t               rdlength;
@@ -1092,15 +1092,20 @@ static ares_status_t ares_dns_write_rr(const ares_dns_record_t *dnsrec,
 ares_status_t ares_dns_write_buf(const ares_dns_record_t *dnsrec,
                                  ares_buf_t              *buf)
 {
-  ares_llist_t *namelist = NULL;
-  size_t        orig_len;
-  ares_status_t status;
+  ares_dns_namelist_t namelist;
+  size_t              orig_len;
+  ares_status_t       status;
 
   if (dnsrec == NULL || buf == NULL) {
     return ARES_EFORMERR;
   }
 
   orig_len = ares_buf_len(buf);
+
+  /* Compression offsets count from the start of the message, not from the
+   * start of the buffer which may already hold other data */
+  namelist.names     = NULL;
+  namelist.msg_start = orig_len;
 
   status = ares_dns_write_header(dnsrec, buf);
   if (status != ARES_SUCCESS) {
@@ -1128,7 +1133,7 @@ ares_status_t ares_dns_write_buf(const ares_dns_record_t *dnsrec,
   }
 
 done:
-  ares_llist_destroy(namelist);
+  ares_llist_destroy(namelist.names);
   if (status != ARES_SUCCESS) {
     ares_buf_set_length(buf, orig_len);
   }
